@@ -10,12 +10,27 @@ Errs(n) == [e \in 1..(3 * n) |-> [q \in 1..n |-> IF q = ((e - 1) \div 3) + 1 THE
            \o (IF n >= 2 THEN <<[q \in 1..n |-> IF q = 1 THEN 1 ELSE IF q = n THEN 2 ELSE 0], [q \in 1..n |-> IF q <= 2 THEN 3 ELSE 0]>> ELSE <<>>)
 Coef(n, k, s) == [e \in 1..Len(Errs(n)) |-> [i \in 1..2^k |-> [j \in 1..2^k |-> <<H(s + 1, e, i, j), H(s + 2, e, j, i)>>]]]
 Configs == {[n |-> n, k |-> k, s |-> s] : n \in 1..NMax, k \in 0..1, s \in 1..NSeeds}
-MkObs(n, k, s, q, mats, coef) == [q |-> q, errs |-> Errs(n), coef |-> coef, ip |-> [e \in 1..Len(mats) |-> IP(q, mats[e])], grad |-> GradKL(q, mats, coef)]
+\* The loss the variational code search minimises (numqi.qec.knill_laflamme_loss, kind L2) on the same inner products z[e][i][j]:
+\*      L = sum_e ( sum_{i<j} |z_ij|^2 + sum_i |z_ii - m_e|^2 ),   m_e = (1/K) sum_i z_ii.
+\* K^2 L is an integer, and dL = Re sum c dz with c_ij = 2 conj z_ij (i<j), c_ii = 2 conj(z_ii - m_e), c_ij = 0 (i>j) - the mean drops
+\* out because sum_i (z_ii - m_e) = 0 - so K grad L = GradKL(q, mats, K c) with the integer tensor K c.
+DiagSum(z) == GSum([i \in 1..Len(z) |-> z[i][i]])
+Abs2(w) == w[1] * w[1] + w[2] * w[2]
+LossK2(ip) == LET K == Len(ip[1]) IN
+   FoldLeft(LAMBDA acc, e : acc + K * K * FoldLeft(LAMBDA a2, i : a2 + FoldLeft(LAMBDA a3, j : a3 + (IF i < j THEN Abs2(ip[e][i][j]) ELSE 0), 0, [j \in 1..K |-> j]), 0, [i \in 1..K |-> i])
+                                 + FoldLeft(LAMBDA a2, i : a2 + Abs2(GAdd(GScale(K, ip[e][i][i]), GNeg(DiagSum(ip[e])))), 0, [i \in 1..K |-> i]),
+            0, [e \in 1..Len(ip) |-> e])
+CoefL(ip) == LET K == Len(ip[1]) IN
+   [e \in 1..Len(ip) |-> [i \in 1..K |-> [j \in 1..K |->
+       IF i < j THEN GScale(2 * K, GConj(ip[e][i][j])) ELSE IF i = j THEN GScale(2, GConj(GAdd(GScale(K, ip[e][i][i]), GNeg(DiagSum(ip[e]))))) ELSE GZero]]]
+MkObs(n, k, s, q, mats, coef) == LET ip == [e \in 1..Len(mats) |-> IP(q, mats[e])] IN
+   [q |-> q, errs |-> Errs(n), coef |-> coef, ip |-> ip, grad |-> GradKL(q, mats, coef), lossK2 |-> LossK2(ip), gradLK |-> GradKL(q, mats, CoefL(ip))]
 Init == /\ cfg \in Configs
         /\ \E q \in {Words(cfg.n, cfg.k, cfg.s)} : \E mats \in {[e \in 1..Len(Errs(cfg.n)) |-> PauliMat(Errs(cfg.n)[e])]} : \E coef \in {Coef(cfg.n, cfg.k, cfg.s)} :
            \E o \in {MkObs(cfg.n, cfg.k, cfg.s, q, mats, coef)} : obs = o
 Next == UNCHANGED <<cfg, obs>>
 Spec == Init /\ [][Next]_<<cfg, obs>>
 \* Hermitian errors: <q_i|E|q_j> = conj <q_j|E|q_i>
+LossOK == obs.lossK2 >= 0
 HermOK == \A e \in 1..Len(obs.ip) : \A i, j \in 1..Len(obs.q) : obs.ip[e][i][j] = GConj(obs.ip[e][j][i])
 =============================================================================
